@@ -365,7 +365,7 @@ func (p *Proxy) handleCONNECT(r responder.Responder, proxyReq *http.Request) err
 		req.Close = true
 		// Each exchange gets its own responder: a responder accumulates the headers, status and
 		// Content-Length of the response it builds, which must not carry over to the next exchange.
-		if err := p.handleHTTP(responder.NewRawHTTPResponder(tlsConn), req); err != nil {
+		if err := p.handleHTTP(responder.NewRawHTTPResponder(tlsConn).ForRequest(req), req); err != nil {
 			slog.Error("Error processing HTTP request in CONNECT tunnel", "host", proxyReq.Host, "error", err)
 			if errors.Is(err, ErrClientResponseFailed) {
 				// The response was only partly written (for example the upstream body broke off): the
